@@ -135,6 +135,8 @@ class AltZygote:
             raise HarnessError("alt zygote closed its pipe")
         msg = json.loads(line)
         if msg[0] != "ok":
+            if str(msg[1]).startswith("ChildTimeout"):
+                raise ChildTimeout(f"alt zygote: {msg[1]}")
             raise HarnessError(f"alt zygote: {msg[1]}")
         return msg[1]
 
